@@ -792,6 +792,19 @@ class _MissingImportFinder:
         else:
             self._visit_Store(node.kwarg)
 
+    def visit_For(self, node) -> None:
+        # The iterable is evaluated before the target is bound:
+        # in ``for x in x: ...`` the ``x`` of the iterable is a Load that
+        # happens first.
+        assert node._fields == ('target', 'iter', 'body', 'orelse', 'type_comment'), node._fields
+        self.visit(node.iter)
+        self.visit(node.target)
+        self.visit(node.body)
+        self.visit(node.orelse)
+
+    def visit_AsyncFor(self, node) -> None:
+        return self.visit_For(node)
+
     def visit_ExceptHandler(self, node) -> None:
         assert node._fields == ('type', 'name', 'body')
         if node.type:
